@@ -1,10 +1,10 @@
-\* C17 bridge design check (WRONG rule tag = last snapshot id (sanity: must violate)): 3 addresses, nesting up to 3 snapshots, <= 7 steps per transaction,
+\* C17 bridge design check (WRONG rule (revert forgets tag >= id): sanity run, NoStaleRead must be violated): 3 addresses, nesting up to 3 snapshots, <= 6 steps per transaction,
 \* every interleaving of first accesses, writes, nested snapshots and reverts, both transaction outcomes
 SPECIFICATION Spec
 CONSTANTS
   Addr = {1, 2, 3}
-  MaxOps = 7
-  TagOffset = 0
-  DropIf = "gt"
+  MaxOps = 6
+  TagOffset = 1
+  DropIf = "ge"
 INVARIANTS NoStaleRead SyncNotReverted FailureIsInvisible WriteBackExact
 CHECK_DEADLOCK FALSE
